@@ -4,19 +4,23 @@ from core import hx, unhx
 
 LEAN_MODULE = 'QM.Props.C08'
 THEOREMS = ['Refine.C08_process_refines', 'Refine.C09_members_order_free', 'Refine.C09_members_exact', 'Refine.C10_independent',
+            'Cv.C08_process_concrete', 'Cv.C08_processUnits', 'Cv.C08_order_irrelevant', 'Cv.sys_local', 'Cv.convOut_congr', 'Cv.linkOf_congr', 'Cv.reads_lower', 'Cv.link_higher',
             'Cv.C08_priorities', 'Cv.C08_service_suffixes', 'Conform.sorting_priority', 'Conform.service_suffix']
 ASSUMPTIONS = [
-    'Refine.* is proved for every system satisfying Refine.Local (converters read the table only at the names they reference; what they read is published by a strictly lower priority or never rewritten; links go to strictly higher priority); that the concrete converters satisfy Local is argued in DESIGN.md from their read sets and the extracted priorities (C08_priorities) and is validated, not proved: the concrete loop model (Cv.convertStepU, QM/Proc.lean) is compared with the real converters on generated unit sets in sorted *and* unsorted orders, and the declarative statement below is checked on the real converters',
+    'Refine.* is proved for every system satisfying Refine.Local; Cv.sys_local proves Local for the concrete loop model Cv.sys (the model that answers the convert op): every converter model reads the name table only at its static read set (congruence lemmas for all handlers and the seven converters), whatever it reads is published by a strictly lower priority or never rewritten, a container links only to a .pod, which sorts later. Hypothesis kept: the units have supported extensions (Loadable — what is_extension_supported guarantees at discovery) and distinct file names (first-seen-wins, C13)',
+    'the concrete loop model is tied to the code by the convert correspondence on generated unit sets in sorted *and* unsorted orders (Refine.step of Cv.sys is what the driver executes); the converters\' use of the table is therefore modelled, not verified in Rust',
     'the Python functions in harness/refs.py state service name and object name of a unit independently of the code',
 ]
-LEVEL_TEXT = ('Proof (abstract refinement) + oracle (concrete naming): Lean theorem C08_process_refines — for any set of units with distinct file names and '
-              'ANY priority-sorted processing order (the sort is unstable), the loop with its mutable name table gives every unit exactly the result '
-              'of converting it against the final, order-free table; by induction over the order with a table invariant, no bound on the number of '
-              'units. The priorities it needs are decided from the table extracted from main.rs (C08_priorities), suffixes from mod.rs. The concrete '
-              'instance is tied by correspondence of the step function on unit sets; the property\'s statement itself (object name used, Requires/After '
-              'on the target\'s service, missing target fails only the referrer and names the file) is checked on the real converters for random '
-              'reference graphs.')
-LEVEL_NOTE = 'Trusted: Lean kernel; extractor; correspondence of the loop model on generated unit sets; the locality conditions of the abstract theorem are not yet proved for the concrete converters.'
+LEVEL_TEXT = ('Proof (refinement, abstract and concrete) + oracle (naming): Lean theorem C08_process_concrete — for every set of loadable units with distinct '
+              'file names and ANY priority-sorted processing order (the sort is unstable), the conversion loop of the model (mutable name table, '
+              'pods\' start lists) gives every unit exactly the result of converting it against the final, order-free table and the complete list of '
+              'its members; proved by instantiating the abstract refinement theorem (induction over the order with a table invariant, no bound on '
+              'the number of units) with Cv.sys_local, which establishes the locality conditions for the real converter models: congruence of every '
+              'handler and converter in the table outside its read set, priorities decided from the table extracted from main.rs, extension lemmas. '
+              'C08_order_irrelevant: two sorted orders differ at most in the order of a pod\'s members. The model is tied by correspondence of the '
+              'step function on unit sets; the property\'s statement itself (object name used, Requires/After on the target\'s service, missing '
+              'target fails only the referrer and names the file) is checked on the real converters for random reference graphs.')
+LEVEL_NOTE = 'Trusted: Lean kernel; extractor; correspondence of the loop model (Cv.sys / Refine.step) on generated unit sets.'
 TECHNIQUE = 'Lean 4 refinement proof (loop with mutable name table ⊑ declarative resolution, all sorted orders) + decide-checked priorities + reference-graph oracle'
 
 
